@@ -112,6 +112,12 @@ def run(chk):
         for glob in (False, True):
             for k in range(3 if quick else 12):
                 rich.append({"graph": {}, "goroutines": 16, "per_g": 150 if quick else 600, "seed": seed * 500 + k, "warm": warm, "global": glob})
+    # many more goroutines than processors, all decoding: whatever a call keeps on the shared codec while it runs (a counter,
+    # a scratch buffer, a "busy" mark) is then held by dozens of calls at once, not by at most GOMAXPROCS of them
+    for warm in (False, True):
+        for k in range(2 if quick else 8):
+            rich.append({"graph": {}, "goroutines": 64 if k % 2 == 0 else 128, "per_g": 40 if quick else 150, "seed": seed * 900 + k,
+                         "warm": warm, "global": False, "mix": "dec"})
     res = chk.replay("c10rich", rich, "rich", workers=4, timeout="180s", race=True, env={"GORACE": "halt_on_error=1"})
     chk.absorb("c10rich", rich, res, crash_sig=race_sig)
     chk.extra_cov["rich_stress_runs"] = len(rich)
